@@ -28,6 +28,8 @@ CHECKS = {
          "problem identity by canonical hash; exceptions agree only if the original raises the same type", "bounded exhaustive enumeration + round-trip equality on every case", "2 C11"),
  "C13": ("E1 over every asset type accepting freq / periodicity (one and two variables per step, several rows per variable) x coarse frequencies / periodicities (with duration, period >= horizon) x windows x parameter deviations on three grids; constant rate / periodic dispatch predicates, value and plug-in against the fine reference model with equality rows",
          "R2 fine model + equalities, averaged prices / limits as documented; no holding costs with coarse frequency; uniform steps in merged groups", "bounded exhaustive scenario enumeration against a reference model", "2 C13"),
+ "C03": ("E3 full product of tiny OptimProblems (2 variables, <= 2 rows, every pair of row types, boolean flag sets incl. non-0/1 bounds, 4 mapping variants) x every available solver choice x the history [soft solve, normal solve], against the exact rational optimum (vertex enumeration); plus assembled portfolio problems (LP/MIP, mono/split) x solvers against HiGHS on the raw arrays",
+         "R5 exact oracle; booleans are {0,1} as in the cvxpy interface; SCS/OSQP tolerance 2e-3; ortools interface not installed", "full product enumeration of problems x solvers against an exact oracle", "2 C03"),
 }
 
 def main():
